@@ -39,11 +39,11 @@ def gen_ss(rng, nops=None, multi=None):
         elif r < 0.80:
             lo = rng.randrange(0, tx + 1)
             case += [7, lo, rng.choice([0, 0, 0, 0, 1, 2, 5, 100])]
-        elif r < 0.84:
+        elif r < 0.85:
             case += [2, k]
         elif r < 0.87:
             case += [3, k, rng.randrange(1024)]
-        elif r < 0.89:
+        elif r < 0.885:
             case += [4, k, rng.randrange(1024)]
         elif r < 0.95:
             q = rng.random()
@@ -270,3 +270,82 @@ def fixed_cs(tier):
     out.append([0, 0, 1, 3, 1, 0, 3, 2, 3])
     out.append([5, 10, 1, 3, 2, 1, 4, 3, 1, 1, 3, 2, 1, 10, 3])
     return out
+
+
+# ---- `sm` component: the `ss` operations through the real stream manager (judged only) ----
+def gen_sm(rng):
+    case = gen_ss(rng)
+    n = case[2] % 4 + 1
+    case[3] = 0
+    for j in range(1, n):
+        case[4 + j] = case[4]          # one initial MAX_STREAM_DATA for all streams (transport parameter)
+    if case[1] > (1 << 32):
+        case[1] = 1 << 20
+    return case
+
+
+def fixed_sm(tier):
+    out = []
+    for c in fixed_ss(tier):
+        n = c[2] % 4 + 1
+        c = list(c)
+        c[3] = 0
+        for j in range(1, n):
+            c[4 + j] = c[4]
+        out.append(c)
+    # open notification (empty STREAM frame) lost and retransmitted after the stream was reset
+    out.append([0, 1000, 0, 0, 1000, 5, 0, 1200, 0, 0, 3, 0, 7, 5, 0, 1200, 0, 0, 7, 0, 0, 5, 0, 1200, 0, 0])
+    return out
+
+
+def monitor12(case, out, exempt_open_notify=False):
+    """Python port of SendJudge.chk12 over the parsed output; returns (ok, number of exempted frames)"""
+    n, wins, md, recs = parse(case, out)
+    salt = case[0] % 65536 if case else 0
+    w = [0] * n
+    hi = [0] * n
+    fin = [None] * n
+    rst = [False] * n
+    exempted = 0
+
+    def payload(k, o):
+        return (((o * 2654435761 + (salt + 131 * k) * 40503) % 4294967296) // 65536) % 256
+    for r in recs:
+        if r["op"] == 1:
+            res = r["res"]
+            ln = r["args"][1] % 4096
+            if not (-1 <= res <= ln):
+                return False, exempted
+            if res > 0:
+                w[r["args"][0] % n] += res
+        for f in r["frames"]:
+            if f["kind"] not in (1, 2, 3):
+                continue
+            if f["sid"] % 4 != 0 or f["sid"] // 4 >= n:
+                return False, exempted
+            k = f["sid"] // 4
+            if f["kind"] == 1:
+                e = f["val"] + len(f["data"])
+                if exempt_open_notify and rst[k] and not f["data"] and f["val"] == 0 and not f["fin"]:
+                    exempted += 1
+                    continue
+                if rst[k] or e > w[k]:
+                    return False, exempted
+                if any(b != payload(k, f["val"] + i) for i, b in enumerate(f["data"])):
+                    return False, exempted
+                if fin[k] is not None and e > fin[k]:
+                    return False, exempted
+                if f["fin"] and (hi[k] > e or (fin[k] is not None and fin[k] != e)):
+                    return False, exempted
+                hi[k] = max(hi[k], e)
+                if f["fin"]:
+                    fin[k] = e
+            elif f["kind"] == 2:
+                if hi[k] > f["val"] or (fin[k] is not None and fin[k] != f["val"]):
+                    return False, exempted
+                fin[k] = f["val"]
+                rst[k] = True
+            else:
+                if rst[k]:
+                    return False, exempted
+    return True, exempted
